@@ -110,6 +110,15 @@ def run(ck):
     base += jgen.random_cases(ck.seed * 31 + 88, 120 if quick else 3000, start_id=len(base) + 1, features=("loopcontrols", "safe"))
     for c in base:
         c.pop("emit_values", None)
+    # the same expressions in positions that go through the optimizer pass instead of the
+    # compile-time folding of output nodes: {% set v = expr %}{{ v }} and {% if expr %}
+    nexpr = 250 if quick else 5000
+    for c in list(base[:nexpr]):
+        e = c["tpls"]["main"]["body"][0]["e"]
+        body = [J.Set("v", e), J.Out(J.Name("v")), J.If([e], [[J.Text("T")]], [J.Text("F")])]
+        nc = J.make_case(len(base) + 1, {"main": J.template(body, c["tpls"]["main"]["auto"])}, "main", c["datas"], objs=c["objs"],
+                         undefined=c["cfg"]["undefined"])
+        base.append(nc)
     # A' : autoescape-wrapped variants (static on / static off / decided at runtime)
     wrapped = [wrap_autoescape(c, rnd, len(base) + 1 + i) for i, c in enumerate(base) if len(c["tpls"]) == 1]
     A = base + wrapped
